@@ -92,19 +92,19 @@ def limits(cfg):
     )
 
 
-def run_case(data, cfg):
+def run_case(data, cfg, lazy=False):
     from vf import oracle
     from vf.ref import request as rq
 
     h = harness(cfg)
     mh, mb = limits(cfg)
     expected = rq.parse_stream(data, mh, mb)
-    res = h.run_recorded([data])
+    res = h.run_recorded([data], lazy=lazy)
     v = oracle.judge(data, expected, res)
     return expected, res, v
 
 
-def account(acc, v, expected, res, data, cfg, dkey, label):
+def account(acc, v, expected, res, data, cfg, dkey, label, lazy=False):
     acc.evaluations += 1
     acc.distinct.add(dkey)
     for c in v.classes:
@@ -117,7 +117,7 @@ def account(acc, v, expected, res, data, cfg, dkey, label):
         acc.count("zone:" + z)
     acc.count("calls_compared", v.ncalls)
     for key, what in v.violations:
-        acc.violation(key, what, {"stream": b2s(data), "config": cfg, "label": label})
+        acc.violation(key, what, {"stream": b2s(data), "config": cfg, "label": label, "lazy": lazy})
 
 
 def run_shard(spec):
@@ -147,11 +147,13 @@ def run_shard(spec):
                 data = b"".join(G.render(t) for t in ms)
                 if follow:
                     data += G.FOLLOWUP
-                expected, res, v = run_case(data, cfg)
+                lazy = rng.random() < 0.3
+                expected, res, v = run_case(data, cfg, lazy)
+                acc.count("schedule:lazy-worker" if lazy else "schedule:eager-worker")
                 pos = "first" if mi == 0 else "later"
                 lim = "tiny" if "max_request_header_size" in cfg or "max_request_body_size" in cfg else "default"
                 dkey = "|".join((G.skeleton(ms[mi]), name, pos, lim))
-                account(acc, v, expected, res, data, cfg, dkey, name)
+                account(acc, v, expected, res, data, cfg, dkey, name, lazy)
                 acc.count("mut:" + name.split(":")[0] + ":" + name.split(":")[1] if ":" in name else "mut:" + name)
                 if follow:
                     served = any(c.environ.get("REQUEST_URI") == "/followup" for c in res.calls)
@@ -221,7 +223,7 @@ def finish(agg, tier, coverage):
 
 def replay(case):
     data = s2b(case["stream"])
-    expected, res, v = run_case(data, case.get("config", {}))
+    expected, res, v = run_case(data, case.get("config", {}), case.get("lazy", False))
     return [{"key": k, "what": w, "case": case} for k, w in v.violations]
 
 
